@@ -1,9 +1,12 @@
 //! mwv — runtime-monitoring harness for strtok/marwood (see /verif/DESIGN.md).
 pub mod engines;
+pub mod diff;
+pub mod gen;
 pub mod json;
 pub mod mw;
 pub mod numoracle;
 pub mod numpal;
+pub mod refscheme;
 pub mod report;
 pub mod rng;
 pub mod sandbox;
